@@ -4,12 +4,13 @@
    Reading guide.  Model.HyperV is hyperv.py (reader); Spec.HyperV is the writer's side.
    The chain  bytes -> entries -> key tables -> linked tree  is proved link by link:
      packed records and values     C17_fields_roundtrip, C17_value_roundtrip, C17_entry_fields
-     key table                     C17_table_walk_roundtrip (+ C17_walk_progress on arbitrary bytes)
+     key table                     C17_table_walk_roundtrip (+ C17_walk_progress on arbitrary bytes), C17_entry_decodes
      tree                          C17_link_entries_roundtrip, C17_link_roundtrip (any tree, any layout, any order)
+     bytes of key tables -> tree   C17_key_tables_roundtrip (the composition of the above)
      selection rules               C17_free_ignored, C17_active_header, C17_active_key_table
      tie to the source             C17_layouts_and_literals (generated layouts / enums / literals)
    and the object-table worklist of HyperVFile.__init__ (property C11, repaired code):
-                                   C11_hyperv_worklist_terminates. *)
+                                   C11_hyperv_worklist_terminates, C11_hyperv_open_terminates. *)
 From Coq Require Import String.
 From Coq Require Import ZArith List Permutation.
 From DH Require Import Base.Plan Base.Layout Base.Table Model.HyperV Spec.HyperV Proofs.HyperV.
@@ -98,6 +99,30 @@ Theorem C17_link_roundtrip :
 Proof. exact link_roundtrip. Qed.
 Print Assumptions C17_link_roundtrip.
 
+(* a stored entry is seen by the linker as the node it stores: identity (table index, offset), parent
+   (root whenever the parent index is 0), key, node-ness, value *)
+Theorem C17_entry_decodes :
+  forall f fo idx off e p a,
+  entry_stores f fo idx off e p a -> lentry_of f fo idx (rentry_of off e) = top p a.
+Proof. exact entry_decodes. Qed.
+Print Assumptions C17_entry_decodes.
+
+(* FROM BYTES TO TREE.  Ts are the active key tables as stored (bytes = st_bytes T): any number of
+   tables with pairwise different indices, any entries with any padding, free entries in any slots,
+   values inline or in file objects, tables full or zero-terminated.  If what their slots hold is, in
+   any order, the entries of forest F (pairwise different identities, unique sibling keys), then every
+   table parses and linking the parsed tables (Model.active_tables has this shape) gives F. *)
+Theorem C17_key_tables_roundtrip :
+  forall f fo (Ts : list stable) F,
+  Forall (stable_ok f fo) Ts -> NoDup (map st_idx Ts) ->
+  Permutation (flat_map (fun T => live_of (st_slots T)) Ts) (flat_forest root_id F) ->
+  NoDup (root_id :: flat_map aids F) -> forest_keys_unique F ->
+  exists kts,
+    Forall2 (fun T kt => parse_ktab (st_bytes T) (st_size T) = Ok kt) Ts kts /\
+    exists t, link (tables_of f fo kts) = Ok t /\ tree_equiv t (Node (map erase F)).
+Proof. exact key_tables_roundtrip. Qed.
+Print Assumptions C17_key_tables_roundtrip.
+
 (* free entries are ignored: a file decodes to what it decodes to without them *)
 Theorem C17_free_ignored :
   forall ts t, link (strip_free ts) = Ok t -> link ts = Ok t.
@@ -137,6 +162,13 @@ Theorem C11_hyperv_worklist_terminates :
 Proof. exact run_worklist_terminates. Qed.
 Print Assumptions C11_hyperv_worklist_terminates.
 
+(* ... and for concrete files: HyperVFile.__init__ (repaired) terminates on every file, whatever its
+   bytes (headers, replay log, object-table worklist, every key-table walk) *)
+Theorem C11_hyperv_open_terminates :
+  forall f, file_ok f -> open_file f <> Fuel.
+Proof. exact open_file_terminates. Qed.
+Print Assumptions C11_hyperv_open_terminates.
+
 (* ---------- non-vacuity ---------- *)
 (* configuration/{version = 2304, name = "A", sub/{flag = true}} with entries spread over tables 1, 2
    and 7, stored in an order in which children precede parents, plus a free entry *)
@@ -148,7 +180,14 @@ Example C17_nonvacuous :
                                          ([110], Leaf (VString [65]))])]).
 Proof. exact ex_nonvacuous. Qed.
 
-(* a stored string entry and a stored negative integer, decoded from their bytes *)
+(* a concrete stored key table (bytes included) meets every hypothesis of C17_key_tables_roundtrip *)
+Example C17_key_tables_nonvacuous :
+  Forall (stable_ok ex_file []) [ex_stable] /\ NoDup (map st_idx [ex_stable]) /\
+  Permutation (flat_map (fun T => live_of (st_slots T)) [ex_stable]) (flat_forest root_id [ex_root]) /\
+  NoDup (root_id :: flat_map aids [ex_root]) /\ forest_keys_unique [ex_root].
+Proof. exact ex_key_tables. Qed.
+
+(* a stored string entry with flags and padding, decoded from its bytes *)
 Example C17_entry_example :
   let e := {| se_type := 6 + 256 * 2; se_pidx := 1; se_poff := 10; se_ck := 7; se_ins := 3; se_key := [107];
               se_body := enc_inline (VString [72; 105]) ++ [255; 255] |} in
